@@ -57,8 +57,13 @@ pub fn fmt_trace(rec: &memchr::verif::Recording, regions: [(usize, usize); 2]) -
             Event::Label(l) => toks.push(format!("B{}", l)),
         }
     }
+    // labels survive digesting (the cost oracle needs the strategy)
+    let labels: Vec<&str> = toks.iter().filter(|t| t.starts_with('B')).map(|t| t.as_str()).collect();
+    let lab = if labels.is_empty() { String::new() } else { format!(":{}", labels.join(",")) };
+    // steps = loads + ticks (labels are not steps)
+    let steps = rec.count as usize - labels.len();
     let mut s = if rec.count as usize != rec.events.len() {
-        format!("#{}:capped", rec.count)
+        format!("#{}:capped{}", steps, lab)
     } else if toks.len() > VERBATIM {
         let mut h: u64 = 0xcbf29ce484222325;
         for t in toks.iter() {
@@ -69,7 +74,7 @@ pub fn fmt_trace(rec: &memchr::verif::Recording, regions: [(usize, usize); 2]) -
             h ^= b',' as u64;
             h = h.wrapping_mul(0x100000001b3);
         }
-        format!("#{}:{:016x}", toks.len(), h)
+        format!("#{}:{:016x}{}", steps, h, lab)
     } else if toks.is_empty() {
         "-".to_string()
     } else {
